@@ -163,6 +163,8 @@ def run():
         # the same load/store blocks under every option set
         for b in c06.dep_blocks(random.Random(common.seed() + 707), 70 if quick else 700):
             cases.append({"block": b, "opts": o, "_group": g, "kind": "load-store-blocks", "_cpu": 90})
+        for b in c06.flow_blocks(random.Random(common.seed() + 717), 24 if quick else 240):
+            cases.append({"block": b, "opts": o, "_group": g, "kind": "load-flow-store-blocks", "_cpu": 90})
         rr = random.Random(common.seed() + 77)
         for i in range(n_rand):
             b, k = gen.gen_block(rr, "short")
